@@ -47,6 +47,15 @@ VARIANTS = [
     ("experimental:aed_windowed", lambda sc, A, b, tol: sc.quaternion_schur_experimental(A, variant="aed_windowed", max_iter=b, tol=tol, return_diagnostics=True)),
     ("experimental:francis_ds", lambda sc, A, b, tol: sc.quaternion_schur_experimental(A, variant="francis_ds", max_iter=b, tol=tol, return_diagnostics=True)),
     ("pure_implicit:rayleigh", lambda sc, A, b, tol: sc.quaternion_schur_pure_implicit(A, max_iter=b, tol=tol, return_diagnostics=True)),
+    # every further option of the variants, away from its default
+    ("pure_implicit:none", lambda sc, A, b, tol: sc.quaternion_schur_pure_implicit(A, max_iter=b, tol=tol, return_diagnostics=True, shift_mode="none")),
+    ("unified:aed:window2", lambda sc, A, b, tol: sc.quaternion_schur_unified(A, variant="aed", max_iter=b, tol=tol, aed_window=2, return_diagnostics=True)),
+    ("unified:ds:window2", lambda sc, A, b, tol: sc.quaternion_schur_unified(A, variant="ds", max_iter=b, tol=tol, aed_window=2, return_diagnostics=True)),
+    ("unified:aed:window3:factor", lambda sc, A, b, tol: sc.quaternion_schur_unified(A, variant="aed", max_iter=b, tol=tol, aed_window=3, aed_factor=0.25, return_diagnostics=True)),
+    ("unified:aed:noshifts", lambda sc, A, b, tol: sc.quaternion_schur_unified(A, variant="aed", max_iter=b, tol=tol, precompute_shifts=False, return_diagnostics=True)),
+    ("unified:ds:steps1", lambda sc, A, b, tol: sc.quaternion_schur_unified(A, variant="ds", max_iter=b, tol=tol, power_shift_steps=1, return_diagnostics=True)),
+    ("experimental:aed_windowed:window2", lambda sc, A, b, tol: sc.quaternion_schur_experimental(A, variant="aed_windowed", max_iter=b, tol=tol, window=2, return_diagnostics=True)),
+    ("experimental:francis_ds:window3", lambda sc, A, b, tol: sc.quaternion_schur_experimental(A, variant="francis_ds", max_iter=b, tol=tol, window=3, return_diagnostics=True)),
 ]
 
 
